@@ -52,6 +52,12 @@ Definition client_mode (want_tls : bool) (cr : ctxres) (host_is_name : bool) : m
     | _ => MRefused
     end
   else MPlain.
+(* Which name a client session checks (the host_is_name argument above): the connect target when it is a name, or -
+   since the repair of C07-F11b2 - the TLS server name that accompanies a connect to an ADDRESS.  HttpClient resolves
+   the URL's host itself, connects to the address and passes the URL's host along whenever that is a name. *)
+Definition peer_name_known (target_is_name tls_name_given : bool) : bool := target_is_name || tls_name_given.
+Definition http_client_name_known (url_host_is_name : bool) : bool := peer_name_known false url_host_is_name.
+
 Definition listener_mode (want_tls : bool) (cr : ctxres) : mode :=
   if want_tls then match cr with CtxOk c => MTls c false | _ => MRefused end else MPlain.
 
